@@ -6,7 +6,7 @@ moved by relative steps paired through the module's own mask transitions.  Not d
 numeric invariant 'counter is zero exactly when nothing is pending' over histories - (b) is
 its per-site necessary condition."""
 from ..facts import AnalysisBroken
-from ..model import sx, walk, is_var, is_field, const_of, vars_in
+from ..model import sx, walk, is_var, is_field, const_of, vars_in, on_path
 from .. import rules, core, holds
 from ..report import Remap
 from . import c04
@@ -184,11 +184,45 @@ def blank_ident(P, R):
     R.floor('C03.GRD.3', 2)
 
 
+def reply_settles(P, R, cl, rule='C03.MPT.2'):
+    """A final answer from an awaited service ends the wait: once the reply handler has matched the answering
+    service, it leaves without releasing the awaiting bit only for a refusal (which is a verdict) or for a text it
+    does not recognise - every such return is decided by the reply's content, never by bookkeeping state (a service's
+    reference count, configuration flags), which a reload may have changed in the meantime."""
+    n = 0
+    for f in cl.values():
+        rel_sites = [t for t in f.stores() if t.ev['k'] == 'store' and is_field(t.ev['lhs'], holds.MASK) and t.ev.get('op') == '&=']
+        if not rel_sites or len(f.params) < 3:
+            continue
+        replyp = f.params[2]
+        rel = rel_sites[0]
+        for s in f.sites():
+            if s.ev['k'] != 'ret':
+                continue
+            # after the lookup: the release is reachable from an ancestor that also reaches this return, and the
+            # return is not the release path itself
+            if s.bid in f.reach([rel.bid]) or rel.bid == s.bid:
+                continue
+            gs = f.guards(s.bid)
+            matched = any(isinstance(g[0], dict) and is_var(g[0]) and g[1] == '<' and on_path(g[2], 'used') for g in gs) or \
+                any(is_var(g[0]) and g[1] in ('<',) and not isinstance(const_of(g[2]), int) for g in gs)
+            if not matched:
+                continue
+            n += 1
+            killed = any(t.ev['k'] == 'call' and t.ev.get('callee') in ('iauth_kill', 'iauth_quietly_kill') for t in f.block_sites(s.bid)[:s.idx])
+            foreign = [g for g in gs if not any(is_var(x, replyp) for x in walk(g[0])) and not (is_var(g[0]) and g[1] == '<') and not is_var(g[0], f.params[0])
+                       and not (is_var(g[0]) and g[0].get('t', '').endswith('*') and const_of(g[2]) == 0)]
+            R.ob(rule, killed or not foreign, s, 'after the answering service was matched, the handler returns without releasing the wait only because of the reply text%s' %
+                 ('' if (killed or not foreign) else ' (this return depends on %s %s %s)' % (sx(foreign[0][0]), foreign[0][1], sx(foreign[0][2]))), key='reply-return:%s' % ('ok' if (killed or not foreign) else sx(foreign[0][0])))
+    R.floor(rule, 1)
+
+
 def run(P, R, tier):
     # a reply can only end the wait if its routing tag is read back the way it was written
     r, sepch, idv, serv = c04.tag_tables(P, Remap(R, {'C04.TAB.1': 'C03.TAB.1'}))
     cl = c04.lookup_discipline(P, Remap(R, {}))
     c04.lookup_skips(P, Remap(R, {'C04.GRD.3': 'C03.GRD.4'}), cl)
+    reply_settles(P, R, cl)
     blank_ident(P, R)
     dirty_entries(P, R)
     counter_discipline(P, R)
